@@ -53,6 +53,7 @@ func blob(seed int64) []byte {
 
 func runZipcut(r *h.Run, sc zipcutScenario) {
 	r.Eval()
+	setEnv(envSpec{})
 	specs := specsFor(sc.Seed, sc.History+1, 0)
 	build := func() *world {
 		w := newWorld(specs)
